@@ -218,7 +218,14 @@ class DocGen:
             # template language uses by default: the binding on the tag is what counts, so this is unmarked markup
             pre = rng.choice(['ns', 'svg', 'tal', 'metal', 'i18n', 'meta', 'x'])
             n = pre + ':' + rng.choice(['el', 'document', 'block', 'note'])
-            decl = self.ws() + 'xmlns:%s="%s"' % (pre, rng.choice(['urn:own', 'http://example.org/own', 'http://apache.org/cocoon/i18n/2.1']))
+            # (a URI that merely resembles a template namespace - padded with white space, other letter case, a trailing slash -
+            # is somebody else's namespace, too)
+            decl = self.ws() + 'xmlns:%s="%s"' % (pre, rng.choice(['urn:own', 'http://example.org/own', 'http://apache.org/cocoon/i18n/2.1',
+                                                                    ' http://xml.zope.org/namespaces/tal', 'http://xml.zope.org/namespaces/tal\n   ',
+                                                                    'http://xml.zope.org/namespaces/TAL', 'http://xml.zope.org/namespaces/metal/',
+                                                                    '\thttp://xml.zope.org/namespaces/i18n ']))
+            if rng.random() < .5:
+                decl += self.ws() + '%s:%s="%s"' % (pre, rng.choice(['content', 'repeat', 'translate', 'define-macro', 'x']), rng.choice(['v', 'a b', '']))
             attrs = (decl + attrs) if rng.random() < .5 else (attrs + decl)
             self.knobs.add('prefix-bound-on-the-element-itself')
         k = rng.random()
